@@ -146,7 +146,8 @@ fn gen_value(src: &mut Src, kind: Kind) -> f64 {
             v.abs()
         }
     } else if kind.is_hist() {
-        *src.pick(&[1.0, 0.5, 4.0, 5.0, 2.0, -1.0, 0.0])
+        // non-finite observations are legal for histograms
+        *src.pick(&[1.0, 0.5, 4.0, 5.0, 2.0, -1.0, 0.0, f64::NAN, f64::INFINITY, f64::NEG_INFINITY, -0.0])
     } else {
         src.below(9) as f64 / 2.0
     }
@@ -160,7 +161,7 @@ impl Property for C12 {
         "case = kind (Counter, IntCounter, Histogram, CounterVec, IntCounterVec, HistogramVec) x history of 5-50 operations over one \
          shared object and up to 4 local handles: create local, local update, flush (sometimes twice), reset/clear, clone, drop, \
          direct shared update, shared reset, and for vectors local with_label_values over 4 overlapping tuples, local \
-         remove_label_values, removal / re-creation of a child through the shared vector. Values: small integers / dyadics, ~10% \
+         remove_label_values, removal / re-creation of a child through the shared vector. Values: small integers / dyadics (histograms: also bucket bounds, NaN, +-Inf, -0.0), ~10% \
          arbitrary finite floats. Oracle: reference model per shared child object (direct updates + flushed batches, float sums \
          mirrored in the same order), compared after every operation with the shared values (get / collected count, sum, buckets, \
          also of detached children) and with every local's pending count/sum. Non-trivial: >=2 local handles with interleaved \
